@@ -1,6 +1,6 @@
 (* C05 - Fast matching keeps inliers, rejects outliers and weak peaks, never raises. *)
 From Coq Require Import QArith Qabs Qminmax List ZArith.
-From BF Require Import Model.Lattice Model.WLS Model.Match Proofs.LatticeP Proofs.MatchP.
+From BF Require Import Model.Lattice Model.WLS Model.Match Proofs.LatticeP Proofs.MatchP Proofs.MatchExactP.
 Open Scope Q_scope.
 
 (* a valid match has at least min_match selected peaks, as many indices as selected peaks (one optional index per peak),
@@ -35,3 +35,20 @@ Theorem C05_matching_translation_invariant : forall tol2 zero a b p t,
   match_point tol2 (vy zero + vy t, vx zero + vx t) a b (vy p + vy t, vx p + vx t) = match_point tol2 zero a b p.
 Proof. exact match_point_translate. Qed.
 Print Assumptions C05_matching_translation_invariant.
+
+(* end to end on exact data: if every peak with elevation >= min_weight lies exactly on the lattice the match is started from
+   (integer indices idx), at least min_match of them, index set of rank 3: the match is valid, selects exactly those peaks with
+   their true indices (weak peaks are not selected), and the returned lattice is that lattice *)
+Theorem C05_exact_lattice_end_to_end : forall tol2 mw mm zero a b idx pts z1 a1 b1,
+  ~ det2 a b == 0 -> 0 < tol2 -> on_lattice zero a b mw idx pts ->
+  (mm <= Z.of_nat (length (filter (fun k => Qle_bool mw (k_w k)) pts)))%Z ->
+  wls3 (fit_points (expected mw idx pts) pts) = Some (z1, a1, b1) ->
+  fastmatch tol2 mw mm zero a b pts = Valid (expected mw idx pts) z1 a1 b1 /\ veq z1 zero /\ veq a1 a /\ veq b1 b.
+Proof. exact fastmatch_exact_lattice. Qed.
+Print Assumptions C05_exact_lattice_end_to_end.
+
+(* the matching step depends on the lattice only up to ==, in particular not on how its rational parameters are represented *)
+Theorem C05_matching_respects_lattice_equality : forall tol2 z z' a a' b b' p, veq z z' -> veq a a' -> veq b b' ->
+  match_point tol2 z a b p = match_point tol2 z' a' b' p.
+Proof. exact match_point_comp. Qed.
+Print Assumptions C05_matching_respects_lattice_equality.
